@@ -128,9 +128,13 @@ def suite_sigma(ctx, case):
         if np.any(near):
             okc = bool(np.all(u[near] == 1e6))
             off = float((r[near] - s)[0])
+            # the known finding F7 is about grid points that ARE the correctly rounded products (i+1)*dr and still compare above sigma;
+            # a grid that is itself off by an ulp from (i+1)*dr is another matter
+            idx = int(np.argmax(near))
+            exact_grid = float(r[idx]) == (idx + 1) * float(dr)
             ctx.pred('sigma', dict(case, pair=a + b), okc,
-                     'grid point nominally at sigma=%r (r - sigma = %.3g) is outside the core of pair %s-%s' % (s, off, a, b),
-                     key='C10:contact-float-noise' if 0 < off < tol else 'C10:contact')
+                     'grid point nominally at sigma=%r (r - sigma = %.3g%s) is outside the core of pair %s-%s' % (s, off, '' if exact_grid else '; the grid point is not (i+1)*dr', a, b),
+                     key='C10:contact-float-noise' if (0 < off < tol and exact_grid) else 'C10:contact')
 
 def suite_intgrid(ctx, case):
     """grids whose dtype is not float64: Domain(dr=1) (an int spacing) has an INTEGER r array; float32 grids; the documented u(r)
